@@ -63,9 +63,9 @@ func (o BOrigin) String() string {
 // ParamSummary describes what a function does with a []byte parameter.
 type ParamSummary struct {
 	Mutates bool
-	Retains bool // stored into a field whose slice is mutated somewhere
+	Retains bool                // stored into a field whose slice is mutated somewhere
 	Stored  map[*types.Var]bool // stored into these fields (any)
-	Returns bool // a result aliases it
+	Returns bool                // a result aliases it
 	Why     string
 }
 
